@@ -20,6 +20,7 @@ mod rng;
 mod runner;
 mod scenario;
 mod state;
+mod tablew;
 mod world;
 
 use std::collections::BTreeMap;
